@@ -15,6 +15,7 @@ pub mod c13;
 pub mod c15;
 pub mod c16;
 pub mod c17;
+pub mod c18;
 pub mod c19;
 pub mod c20;
 pub mod corpus_checks;
@@ -46,6 +47,7 @@ pub fn all() -> Vec<Prop> {
         Prop { id: "C15", run: c15::run, replay: c15::replay, self_test: common::self_test_schema },
         Prop { id: "C16", run: c16::run, replay: c16::replay, self_test: common::self_test_schema },
         Prop { id: "C17", run: c17::run, replay: c17::replay, self_test: common::self_test_schema },
+        Prop { id: "C18", run: c18::run, replay: c18::replay, self_test: common::self_test_schema },
         Prop { id: "C19", run: c19::run, replay: c19::replay, self_test: common::self_test_schema },
         Prop { id: "C20", run: c20::run, replay: c20::replay, self_test: common::self_test_codec },
     ]
